@@ -55,7 +55,9 @@ func build(n int, thorough bool) *fam {
 	}
 	B := func(b int) int { return add(chainlab.Event{Kind: chainlab.EvBlock, Block: b}) }
 	V := func(v, s, t int) int { return add(chainlab.Event{Kind: chainlab.EvVote, Val: v, Src: s, Tgt: t}) }
-	VBad := func(v, s, t int) int { return add(chainlab.Event{Kind: chainlab.EvVote, Val: v, Src: s, Tgt: t, BadSig: true}) }
+	VBad := func(v, s, t int) int {
+		return add(chainlab.Event{Kind: chainlab.EvVote, Val: v, Src: s, Tgt: t, BadSig: true})
+	}
 	BSL := func(b, s int, signers []int, bad bool) int {
 		return add(chainlab.Event{Kind: chainlab.EvBlockSL, Block: b, Src: s, Signers: append([]int(nil), signers...), BadSig: bad})
 	}
